@@ -16,6 +16,7 @@ type Rewriter struct {
 	Applied map[string]int
 	// sites whose rewrite turned a constant fixed-array index into a non-constant one
 	MadeIndexNonConst bool
+	indexVars         map[string]bool // variables read inside a fixed-array index expression
 }
 
 func (r *Rewriter) hit() bool { return r.Rng.IntN(100) < r.P }
@@ -122,6 +123,15 @@ func (r *Rewriter) hoist(e Expr, top bool, pre *[]Stmt) Expr {
 		return &Bin{Op: n.Op, L: l, R: r.hoist(n.R, false, pre), T: n.T}
 	case *Cast:
 		return &Cast{X: r.hoist(n.X, false, pre), T: n.T}
+	case *Un:
+		// -x on a variable or constant: bound to a fresh immutable local just before its use
+		if n.Op == "-" && n.X.Ty().K == KInt && !hasCall(n.X) && !hasDynIndex(n.X) && r.hit() {
+			r.n++
+			name := fmt.Sprintf("h%d", r.n)
+			*pre = append(*pre, &Let{Name: name, T: n.X.Ty(), Init: n, Annot: true, Const: r.Rng.IntN(2) == 0})
+			r.Applied["subexpression->local"]++
+			return &Var{Name: name, T: n.X.Ty()}
+		}
 	}
 	return e
 }
@@ -253,8 +263,11 @@ func (r *Rewriter) stmts(ss []Stmt, mut map[string]bool) []Stmt {
 				continue
 			}
 			init := n.Init
-			switch r.Rng.IntN(3) {
-			case 0:
+			switch k := r.Rng.IntN(3); {
+			case r.indexVars[n.Name]:
+				// feeds a fixed-array index: its initialiser stays a compile-time constant
+				// (documented rule), only let->const applies
+			case k == 0:
 				init = r.rewriteExpr(init, n.Annot)
 			default:
 				init = r.hoist(init, true, &pre)
@@ -275,7 +288,30 @@ func (r *Rewriter) stmts(ss []Stmt, mut map[string]bool) []Stmt {
 				}
 			}
 			out = append(append(out, pre...), &Assign{LHS: n.LHS, Op: n.Op, RHS: rhs})
+		case *ExprStmt:
+			// arguments of a call statement, left to right, as long as nothing before them has
+			// side effects
+			if cl, ok := n.X.(*Call); ok {
+				args := make([]Expr, len(cl.Args))
+				clean := true
+				for k, a := range cl.Args {
+					args[k] = a
+					if clean && a.Ty().K == KInt {
+						args[k] = r.hoist(a, false, &pre)
+					}
+					clean = clean && !hasCall(a)
+				}
+				out = append(append(out, pre...), &ExprStmt{X: &Call{Fn: cl.Fn, Args: args}})
+			} else {
+				out = append(out, n)
+			}
 		case *Print:
+			if _, isVar := n.X.(*Var); !isVar && n.X.Ty().K == KInt {
+				if x := r.hoist(n.X, false, &pre); x != n.X {
+					out = append(append(out, pre...), &Print{X: x})
+					continue
+				}
+			}
 			if r.hit() {
 				r.Applied["wrap-in-if-true"]++
 				out = append(out, &If{Cond: &Lit{T: TBool, I: 1}, Then: []Stmt{n}})
@@ -315,6 +351,11 @@ func (r *Rewriter) Rewrite(p *Program) *Program {
 	if r.Applied == nil {
 		r.Applied = map[string]int{}
 	}
+	r.indexVars = map[string]bool{}
+	collectIndexVars(p.Main, r.indexVars)
+	for _, f := range p.Funcs {
+		collectIndexVars(f.Body, r.indexVars)
+	}
 	mut := map[string]bool{}
 	assigned(p.Main, mut)
 	q := &Program{Types: p.Types, Features: p.Features}
@@ -327,4 +368,121 @@ func (r *Rewriter) Rewrite(p *Program) *Program {
 	// calls inside the rewritten bodies still point at the original Func objects: same names
 	q.Funcs = append(q.Funcs, r.newFns...)
 	return q
+}
+
+// collectIndexVars gathers the names of variables read inside the index of a fixed-array access.
+func collectIndexVars(ss []Stmt, out map[string]bool) {
+	var vars func(e Expr)
+	vars = func(e Expr) {
+		switch n := e.(type) {
+		case *Var:
+			out[n.Name] = true
+		case *Bin:
+			vars(n.L)
+			vars(n.R)
+		case *Un:
+			vars(n.X)
+		case *Cast:
+			vars(n.X)
+		}
+	}
+	var expr func(e Expr)
+	expr = func(e Expr) {
+		switch n := e.(type) {
+		case *Index:
+			xt := n.X.Ty()
+			if xt.K == KRef {
+				xt = xt.Elem
+			}
+			if xt.K == KArr {
+				vars(n.I)
+			}
+			expr(n.X)
+			expr(n.I)
+		case *Bin:
+			expr(n.L)
+			expr(n.R)
+		case *Un:
+			expr(n.X)
+		case *Cast:
+			expr(n.X)
+		case *FieldX:
+			expr(n.X)
+		case *Call:
+			for _, a := range n.Args {
+				expr(a)
+			}
+		case *MCall:
+			expr(n.Recv)
+			for _, a := range n.Args {
+				expr(a)
+			}
+		case *ClosureCall:
+			for _, a := range n.Args {
+				expr(a)
+			}
+		case *Borrow:
+			expr(n.X)
+		case *Len:
+			expr(n.X)
+		case *StructLit:
+			for _, a := range n.Vals {
+				expr(a)
+			}
+		case *ArrLit:
+			for _, a := range n.Elems {
+				expr(a)
+			}
+		case *Catch:
+			expr(n.Call)
+			expr(n.Fallback)
+			collectIndexVars(n.Handler, out)
+		}
+	}
+	for _, s := range ss {
+		switch n := s.(type) {
+		case *Let:
+			expr(n.Init)
+		case *LetClosure:
+			collectIndexVars(n.C.Body, out)
+		case *Assign:
+			expr(n.LHS)
+			expr(n.RHS)
+		case *IncDec:
+			expr(n.X)
+		case *If:
+			expr(n.Cond)
+			collectIndexVars(n.Then, out)
+			collectIndexVars(n.Else, out)
+		case *While:
+			expr(n.Cond)
+			collectIndexVars(n.Body, out)
+		case *ForRange:
+			expr(n.Lo)
+			expr(n.Hi)
+			collectIndexVars(n.Body, out)
+		case *ForDyn:
+			expr(n.Arr)
+			collectIndexVars(n.Body, out)
+		case *Print:
+			expr(n.X)
+		case *ExprStmt:
+			expr(n.X)
+		case *Return:
+			if n.X != nil {
+				expr(n.X)
+			}
+		case *Match:
+			expr(n.Subj)
+			for _, a := range n.Arms {
+				collectIndexVars(a.Body, out)
+			}
+			collectIndexVars(n.Default, out)
+		case *Append:
+			expr(n.Arr)
+			expr(n.Val)
+		case *Block:
+			collectIndexVars(n.Body, out)
+		}
+	}
 }
